@@ -4,6 +4,7 @@ import (
 	"bytes"
 	"errors"
 	"fmt"
+	"math"
 	"os"
 	"path/filepath"
 	"sync"
@@ -873,8 +874,11 @@ func (m *Manager) recoverFromWAL() error {
 
 	filesRecovered := uint64(len(walFiles))
 
-	// Get recovery options
+	// Get recovery options. Log files are kept after a flush, so the log volume
+	// is not bounded by MaxMemTables x MemTableSize: recovery must be allowed
+	// as many memtables as the log needs (they are flushed afterwards).
 	recoveryOpts := memtable.DefaultRecoveryOptions(m.cfg)
+	recoveryOpts.MaxMemTables = math.MaxInt32
 
 	// Recover memtables from WAL
 	memTables, maxSeqNum, err := memtable.RecoverFromWAL(m.cfg, recoveryOpts)
